@@ -30,23 +30,61 @@ Fixpoint index_from (i step : Z) (l : list Q) : list (Z * Q) :=
 Definition red_next (f : Z -> Q -> option Q) (i : Z) (p : Q) : option Q :=
   match f i p with Some v => Some (Qred v) | None => None end.
 
-(** LeveneHaldane(n, nA): mode, the two streams to the ends of the support, pN, the normalised distribution *)
-Definition lh_dist (n nA : Z) : option (Z * list (Z * Q)) :=
+(** The distribution a class instance LeveneHaldane(nA, mode, pRU, pLU, pN) stands for, given the prefixes R of pRU and L of pLU
+    that reach the two ends of the support: outcome mode + 2i has mass R[i] / pN, outcome mode - 2i (i >= 1) has mass L[i] / pN. *)
+Definition lh_support (mode : Z) (R L : list Q) : list (Z * Q) := index_from mode 2 R ++ index_from (mode - 2) (-2) (tl L).
+Definition lh_norm (mode : Z) (R L : list Q) (pN : Q) : list (Z * Q) :=
+  map (fun vp => (fst vp, Qred (snd vp / pN))) (lh_support mode R L).
+
+(** LeveneHaldane.apply(n, nA): mode, the two streams up to the ends of the support, pN (exact sums, no cut-off) *)
+Definition lh_state (n nA : Z) : option (Z * list Q * list Q * Q) :=
   bind (lh_args unit n nA tt) (fun '(nB, parity) =>
   bind (lh_mode n nA nB parity) (fun mode =>
   bind (stream_prefix (pRU_next_idx n nA nB) (red_next (pRU_next_val n nA nB)) (Z.to_nat ((nA - mode) / 2)) mode 1%Q) (fun R =>
   bind (stream_prefix (pLU_next_idx n nA nB) (red_next (pLU_next_val n nA nB)) (Z.to_nat ((mode - parity) / 2)) mode 1%Q) (fun L =>
-    let pN := Qred (qsum R + qsum L - 1)%Q in
-    Some (mode, map (fun vp => (fst vp, Qred (snd vp / pN))) (index_from mode 2 R ++ index_from (mode - 2) (-2) (tl L))))))).
+    Some (mode, R, L, Qred (qsum R + qsum L - 1)%Q))))).
 
-(** hardyWeinbergTest(nHomRef, nHet, nHomVar, oneSided) = (het_freq_hwe, p_value) in exact arithmetic *)
+(** ... and the normalised distribution *)
+Definition lh_dist (n nA : Z) : option (Z * list (Z * Q)) :=
+  bind (lh_state n nA) (fun '(mode, R, L, pN) => Some (mode, lh_norm mode R L pN)).
+
+(** the class invariant the theorems about the class methods assume, as a computable test (checked on every evaluated (n, nA)) *)
+Definition q_is_one (q : Q) : bool := (Qnum q =? 1) && Pos.eqb (Qden q) 1.      (* the literal 1.0 both streams start with *)
+Definition lh_state_wf (nA : Z) (st : Z * list Q * list Q * Q) : bool :=
+  let '(mode, R, L, pN) := st in
+  (0 <=? mode) && (mode <=? nA) && ((nA - mode) mod 2 =? 0) &&
+  (Z.of_nat (length R) =? (nA - mode) / 2 + 1) && (Z.of_nat (length L) =? mode / 2 + 1) &&
+  match R, L with
+  | r0 :: R', l0 :: L' => q_is_one r0 && q_is_one l0 && forallb (Qle_bool 0) R' && forallb (Qle_bool 0) L'
+                          && Qeq_bool pN (qsum R + qsum L - 1)
+  | _, _ => false
+  end.
+
+(** hardyWeinbergTest(nHomRef, nHet, nHomVar, oneSided) = (het_freq_hwe, p_value) in exact arithmetic: the GENERATED class methods
+    (probability, cumulativeProbability, survivalFunction, rightMidP and the dispatch hwe_pvalue) run on the streams' prefixes;
+    exactMidP is the hand model [exact_midp]. *)
 Definition hwe_model (r h v : Z) (one_sided : bool) : option (Q * Q) :=
   bind (hwe_args r h v one_sided) (fun '(n, nAB, nA) =>
-  bind (lh_dist n nA) (fun '(mode, dist) =>
+  bind (lh_state n nA) (fun '(mode, R, L, pN) =>
   bind (numericalMean n nA (2 * n - nA)) (fun mean =>
   bind (q_div mean (inject_Z n)) (fun het =>
-  bind (if one_sided then rightMidP (survivalFunction (ex_cdf2 dist) nA) (ex_prob dist) nAB
-        else Some (exact_midp dist nAB)) (fun p => Some (Qred het, Qred p)))))).
+  bind (hwe_pvalue (LH_rightMidP nA mode (s_of_list R) (s_of_list L) pN)
+                   (fun x => Some (exact_midp (lh_norm mode R L pN) x)) one_sided nAB) (fun p => Some (Qred het, Qred p)))))).
+
+(** every class method at once, for the model-level search: (wf, probability, cdf(-1, x], survival, rightMidP, leftMidP, exactMidP) at x *)
+Definition q_pair (o : option Q) : option (Z * Z) :=
+  match o with Some q => Some (Qnum (Qred q), Z.pos (Qden (Qred q))) | None => None end.
+Definition lh_methods (n nA : Z) (xs : list Z) : option (bool * Z * list (list (option (Z * Z)))) :=
+  bind (lh_state n nA) (fun '(mode, R, L, pN) =>
+    let pRU := s_of_list R in let pLU := s_of_list L in
+    Some (lh_state_wf nA (mode, R, L, pN), mode,
+          map (fun x => [q_pair (LH_probability nA mode pRU pLU pN x); q_pair (LH_cdf1 nA mode pRU pLU pN x);
+                         q_pair (LH_survival nA mode pRU pLU pN x); q_pair (LH_rightMidP nA mode pRU pLU pN x);
+                         q_pair (LH_leftMidP nA mode pRU pLU pN x); q_pair (Some (exact_midp (lh_norm mode R L pN) x))]) xs)).
+(** cumulativeProbability(n0, n1) on a list of (n0, n1) pairs *)
+Definition lh_cdf2_grid (n nA : Z) (pts : list (Z * Z)) : option (list (option (Z * Z))) :=
+  bind (lh_state n nA) (fun '(mode, R, L, pN) =>
+    Some (map (fun p => q_pair (LH_cdf2 nA mode (s_of_list R) (s_of_list L) pN (fst p) (snd p))) pts)).
 
 (** |x - y| <= tol * |y| *)
 Definition close_to (x y tol : Q) : bool := Qle_bool (Qabs (x - y)) (tol * Qabs y).
